@@ -85,7 +85,35 @@ class C05(PropBase):
                     ops.append({'op': 'recv', 'i': 0})
                     yield {'ops': ops}
 
+    def fd_refused_cf(self, rng):
+        """a CAN FD reception (First Frame on 12..64 bytes) in which Consecutive Frames of the expected sequence number but of ANOTHER size arrive
+        mid-block (refused: ChangingInvalidRXDLError), each followed by the properly sized frame: a refused frame completes no block"""
+        a, _ = gen.rand_addr_pair(rng, mode=rng.choice([0, 1, 2, 3, 5]), asym_prob=0)
+        bs = rng.choice([2, 2, 3, 4])
+        ops = [{'op': 'layer', 'i': 0, 'addr': a, 'params': {'blocksize': bs}}]
+        fid, ext, _ = gen.rx_match_frame(a, b'')
+        _, _, d = gen.rx_match_frame(a, b'\x00')
+        pre = d[:-1]
+        txdl = rng.choice([12, 16, 24, 64])
+        c = txdl - 1 - len(pre)
+        ncf = rng.choice([3, 4, 6, 9])
+        n = (txdl - 2 - len(pre)) + c * ncf - rng.randrange(0, c - 1)
+        frames = ref.foreign_stream(gen.rand_payload(rng, n), txdl, prefix=pre, last='full')
+        for k, fr in enumerate(frames):
+            if 0 < k < len(frames) - 1 and rng.random() < 0.4:
+                ops.append({'op': 'frame', 'i': 0, 'id': fid, 'ext': ext, 'data': (pre + bytes([0x20 | (k % 16)]) + bytes(7))[:8]})
+                if rng.random() < 0.5:
+                    ops.append({'op': 'process', 'i': 0})
+            ops.append({'op': 'frame', 'i': 0, 'id': fid, 'ext': ext, 'data': fr})
+            if rng.random() < 0.6:
+                ops.append({'op': 'process', 'i': 0})
+        ops.append({'op': 'process', 'i': 0})
+        ops.append({'op': 'recv', 'i': 0})
+        return {'ops': ops}
+
     def scenario(self, rng, tier):
+        if rng.random() < 0.04:
+            return self.fd_refused_cf(rng)
         mode = rng.choice([0, 0, 1, 2, 3, 4, 5, 6])
         a, _ = gen.rand_addr_pair(rng, mode=mode, asym_prob=0.1)
         mfs = rng.choice([4095, 4095, 15, 8, 100])
@@ -224,15 +252,21 @@ def judge_c05(sc, lines_in, impl_out, allow_sends=False):
     hist = []
     used_starts = set()
     n_ff = n_cf = n_fc = 0
+    n_cf_ok = 0          # Consecutive Frames read and not answered with an error (an ignored / refused frame completes no block)
+    cf_pending = False   # the last frame read is a Consecutive Frame whose handling has reported no error so far
     for r in trace.records(lines_in, impl_out):
         if r.result.startswith('exc') and r.op == 'process':
             out.append(('no_raise', 'process() raised %s at op %d' % (r.result, r.k)))
         delivered_for_frame = {}
         for e in r.events:
             if e['k'] == 'rx':
+                if cf_pending:
+                    n_cf_ok += 1
+                    cf_pending = False
                 if ref.reception_condition(rxh, e['id'], e['ext'], e['data']):
                     body = e['data'][pre_rx:]
                     c = ref.classify(body)
+                    cf_pending = (c[0] == 'cf')
                     if c[0] == 'sf':
                         c = c + (len(e['data']) <= 8 or c[3],)
                     hist.append(c)
@@ -241,6 +275,7 @@ def judge_c05(sc, lines_in, impl_out, allow_sends=False):
                     if c[0] == 'cf':
                         n_cf += 1
             elif e['k'] == 'err':
+                cf_pending = False
                 if e['name'] not in ref.ISO_ERRORS:
                     out.append(('errors_typed', 'error %s is not a documented IsoTpError' % e['name']))
             elif e['k'] == 'deliver':
@@ -264,6 +299,11 @@ def judge_c05(sc, lines_in, impl_out, allow_sends=False):
                 if c[0] != 'fc':
                     out.append(('emission', 'non Flow Control frame %s emitted while the user sends nothing' % e['data'].hex()))
                 n_fc += 1
+                # at most one Flow Control per First Frame or COMPLETED block, at the moment it is emitted (frames that were refused count for nothing)
+                ok_now = n_cf_ok + (1 if cf_pending else 0)
+                if c[0] == 'fc' and n_fc > n_ff + (ok_now // bs if bs > 0 else 0) and not any(x[0] == 'emission' for x in out):
+                    out.append(('emission', 'Flow Control number %d emitted after %d First Frames and %d accepted Consecutive Frames (blocksize %d): no block is complete' % (
+                        n_fc, n_ff, ok_now, bs)))
     if not allow_sends:
         bound = n_ff + (n_cf // bs if bs > 0 else 0)
         if n_fc > bound:
